@@ -53,6 +53,70 @@ func runC09(c *Ctx) {
 	setup := []Op{{Op: "ins", V: 1, K: 0}, {Op: "ins", V: 2, K: 2}}
 	item := 0
 	sitesSeen := map[string]bool{}
+	// larger collections: calls that walk every object (or every index entry) against a writer;
+	// a lock taken again "every so many objects" only shows beyond that many
+	bigCalls := []Call{
+		{Name: "all"}, {Name: "assignall"}, {Name: "count"}, {Name: "assignindex"},
+		{Name: "collect", Field: "P", Cmp: ">=", Probe: 0}, {Name: "searchu", Field: "P", Cmp: "=", Probe: 1}, {Name: "assign", Field: "P", Cmp: ">=", Probe: 0},
+		{Name: "collect", Field: "A", Cmp: ">=", Probe: 2}, {Name: "andor", Field: "L", Cmp: "!=", Probe: 0},
+		{Name: "sdel", Field: "P", Cmp: ">=", Probe: 0}, {Name: "delall"}, {Name: "deleteobjects"},
+		{Name: "control"}, {Name: "repair"}, {Name: "close"},
+	}
+	bigSizes := []int{70}
+	if c.Tier == "thorough" {
+		bigSizes = []int{33, 70, 130}
+	}
+	for _, cfg := range []Cfg{{}, {Cache: true}} {
+		for _, size := range bigSizes {
+			for _, a := range bigCalls {
+				for _, partner := range [][]Call{{{Name: "commit"}}, {{Name: "ins", V: 3, K: 4}}} {
+					item++
+					if item%c.NShards != c.Shard {
+						continue
+					}
+					prog := Prog{Cfg: cfg, Setup: []Op{{Op: "fill", V: size}}, Threads: [][]Call{{a}, partner}, Ticks: 1}
+					reported := false
+					st := exploreSchedules(1, 200000, func(prefix []int) *vrt.Exec {
+						r := runProg(prog, prefix, 1, func(w *World, r *ExecResult) {
+							w.DB.Count(&Rec{})
+							w.DB.Commit(&Rec{})
+						})
+						return r.X
+					}, func(x *vrt.Exec, choices []int) bool {
+						c.Count("schedules", 1)
+						c.Count("evaluations", 1)
+						c.Count("transitions", x.NPoints+1)
+						if x.Deadlock || x.Horizon {
+							c.Count("deadlocks", 1)
+							if !reported {
+								reported = true
+								kind := "deadlock"
+								if x.Horizon {
+									kind = "no-progress"
+								}
+								c.Violation(Violation{
+									Sig:  fmt.Sprintf("C09|%s|big|call=%s|blocked=%s", kind, a.Name, normBlocked(append([]string{}, x.Blocked...))),
+									What: fmt.Sprintf("on a collection of %d objects, with this schedule the calls wait for each other forever: %v\n  program: %s", size, x.Blocked, jsonOf(prog)),
+									Cfg:  cfg, More: map[string]interface{}{"program": prog, "schedule": choices},
+								})
+							}
+							return false
+						}
+						for _, p := range x.Panics {
+							c.Violation(Violation{Sig: "C09|panic|big|" + a.Name + "|" + normPanic(p.Value+" @ "+sodFrame(p.Stack)), What: "panic in " + p.Name + ": " + p.Value + "\n" + trimStack(p.Stack), Cfg: cfg, More: map[string]interface{}{"program": prog, "schedule": choices}})
+							return false
+						}
+						return true
+					})
+					c.Count("programs", 1)
+					c.Count("paths_replayed", st.Execs)
+					c.Max("max_points", st.MaxPoints)
+					c.Distinct("states", jsonOf(prog))
+					c.Distinct("distinct_nontrivial", jsonOf(prog))
+				}
+			}
+		}
+	}
 	// the same entry points on a collection holding an object whose file is missing or unreadable:
 	// error paths and "continue past the error" loops must terminate and release their locks
 	damagedCalls := []Call{
